@@ -448,7 +448,7 @@ func driveRend(args []string) error {
 			// directed: a path that is not painted (transparent / nonsensical colour / invalid gradient / outside the LOD
 			// range), immediately followed by a path painted with a valid gradient, then a flat one
 			for why := 0; why < 5; why++ {
-				for _, cfg := range []rendCfg{cfgs[0], cfgs[2]} {
+				for _, cfg := range []rendCfg{cfgs[0], cfgs[2], cfgs[5], cfgs[7]} { // the last two: scales 3 and 2.5, 2 and 3
 					sel := func(op string, v int) Call { c := mkCall(op); c.Sel = v; return c }
 					creg := func(c []int) Call { x := mkCall("SetCReg"); x.C = c; return x }
 					tri := func(adj int) []Call {
@@ -463,6 +463,12 @@ func driveRend(args []string) error {
 						nn := mkCall("SetNReg", float32(s)/2)
 						nn.Incr = 1
 						prog = append(prog, cc, nn)
+					}
+					// the gradient's matrix (NREG[4..9]): a small shear, so that every linear entry of the composed matrix is visible
+					for k, v := range []float32{0.0625, -0.015625, 0.25, 0.0078125, 0.03125, -0.5} {
+						nn := mkCall("SetNReg", v)
+						nn.Adj = 6 - k
+						prog = append(prog, sel("SetNSel", 10), nn)
 					}
 					prog = append(prog, sel("SetCSel", 5), creg([]int{0, 3, 10 | 1<<6, 0x80 | 10, 0})) // CREG[5]: a valid gradient
 					prog = append(prog, sel("SetCSel", 6))
